@@ -47,8 +47,23 @@ def gen_attr(rng, used, types=ATTR_TYPES, messy_ints=True):
     return {"k": "attr", "name": name, "type": ty, "values": vals}
 
 
-def gen_spec(rng, max_depth=3, groups=True, mixed=True, attrs=True, types=NUM_TYPES, maxvars=4, rank_max=3):
-    """abstract dataset: dims at any level, same short names in different groups, named/anonymous/mixed Dims"""
+QUOTED_NAMES = ["a.b", "lat.1", "v.x.y"]     # variable names that pydap stores quoted (`.` -> %2E)
+
+
+def dap_quote(name):
+    """the stored form of a variable name (only `.` occurs in the generator's alphabet)"""
+    return name.replace(".", "%2E")
+
+
+def dap_unquote(name):
+    return name.replace("%2E", ".")
+
+
+def gen_spec(rng, max_depth=3, groups=True, mixed=True, attrs=True, types=NUM_TYPES, maxvars=4, rank_max=3,
+             var_names=None):
+    """abstract dataset: dims at any level, same short names in different groups, named/anonymous/mixed Dims;
+    `var_names`: alphabet of variable names (default NAMES)"""
+    var_names = var_names or NAMES
     all_dims = []   # fq names declared so far (any scope)
     all_vars = []
 
@@ -67,7 +82,7 @@ def gen_spec(rng, max_depth=3, groups=True, mixed=True, attrs=True, types=NUM_TY
             all_dims.append(R.fqn(path, name))
         body = []
         for _ in range(rng.randint(0 if depth else 1, maxvars)):
-            name = rng.choice(NAMES)
+            name = rng.choice(var_names)
             if name in used_names:
                 continue
             used_names.add(name)
@@ -245,3 +260,82 @@ def attr_equal(got, exp):
     if isinstance(exp, float):
         return isinstance(got, float) and repr(got) == repr(exp)
     return type(got) is type(exp) and got == exp
+
+
+# ---------------------------------------------------------------------------------------------
+# abstract spec -> S-expression for the Lean spec model (PydapModel/DmrSpec.lean, Driver/DmrSpec.lean)
+INT_ATTR_TYPES = ("Int8", "UInt8", "Int16", "UInt16", "Int32", "UInt32", "Int64", "UInt64", "Byte", "Char")
+
+
+def _sval(ty, text):
+    if ty in INT_ATTR_TYPES:
+        return "(i %s %d)" % (hexs(text), int(text))
+    if ty.startswith("Float"):
+        return "(f %s)" % hexs(text)
+    return "(s %s)" % hexs(text)
+
+
+def attr_sexp(a):
+    inline = [t for (s, t) in a["values"] if s == "inline"]
+    rest = [(s, t) for (s, t) in a["values"] if s != "inline"]
+    return "(attr %s %s %s (%s))" % (
+        hexs(a["name"]), hexs(a["type"]), _sval(a["type"], inline[0]) if inline else "none",
+        " ".join("(%s %s)" % ("t" if s == "text" else "v", _sval(a["type"], t)) for s, t in rest))
+
+
+def items_sexp(items, table):
+    out = []
+    for it in items:
+        if it["k"] == "dim":
+            out.append("(dim %s %d)" % (hexs(it["name"]), it["size"]))
+        elif it["k"] == "var":
+            dims = " ".join("(r %s %d)" % (hexs(d["ref"]), table[d["ref"]]) if "ref" in d else "(a %d)" % d["size"]
+                            for d in it["dims"])
+            out.append("(var %s %s (%s) (%s) (%s))" % (
+                hexs(it["type"]), hexs(it["name"]), dims, " ".join(attr_sexp(a) for a in it.get("attrs", [])),
+                " ".join(hexs(m) for m in it.get("maps", []))))
+        elif it["k"] == "attr":
+            out.append(attr_sexp(it))
+        else:
+            out.append("(group %s (%s))" % (hexs(it["name"]), items_sexp(it["items"], table)))
+    return " ".join(out)
+
+
+def spec_sexp(spec):
+    return "(%s)" % items_sexp(spec["items"], R.dim_table(spec))
+
+
+def norm_tree_sexp(node, top=True):
+    """ElementTree's tree as the Lean rendering writes it: the text of container elements (indentation) is not
+    part of the model (the parser reads `.text` of <Value> only); of <Dataset>'s attributes only `name` unless
+    `top` is False"""
+    items = [(k, v) for k, v in node.attrib.items() if (not top or k == "name")]
+    attrs = " ".join("(%s %s)" % (hexs(k), hexs(v)) for k, v in items)
+    text = hexs(node.text) if (node.tag == "Value" and node.text is not None) else "none"
+    kids = " ".join(norm_tree_sexp(c, False) for c in node)
+    return "(n %s (%s) %s (%s))" % (hexs(node.tag), attrs, text, kids)
+
+
+def layout_tags(spec):
+    """where variables stand relative to sibling groups, per depth: var-before-group, var-between-groups,
+    var-after-group"""
+    tags = set()
+
+    def rec(g, depth):
+        kinds = [it["k"] for it in g["items"] if it["k"] in ("var", "group")]
+        for i, k in enumerate(kinds):
+            if k != "var":
+                continue
+            before = "group" in kinds[:i]
+            after = "group" in kinds[i + 1:]
+            if before and after:
+                tags.add("depth%d:var-between-groups" % depth)
+            elif before:
+                tags.add("depth%d:var-after-group" % depth)
+            elif after:
+                tags.add("depth%d:var-before-group" % depth)
+        for it in g["items"]:
+            if it["k"] == "group":
+                rec(it, depth + 1)
+    rec(spec, 0)
+    return sorted(tags)
